@@ -14,7 +14,9 @@ SymT(e) == Tok(<< >>, B("sym", "", 0, e))
 Alphabet == << <<I("a")>>, <<I("b")>>, <<I("a"), I("b")>>, <<I("b"), I("a")>>, <<I("a"), I("a")>>,
                <<HI("a")>>, <<HI("a"), I("b")>>, <<F(2)>>, <<F(2), I("a")>>, <<V("v")>>, <<V("v"), I("a")>>,
                <<HV("v")>>, <<I("a"), V("v")>>, <<Dots, I("b")>>, <<Und, I("a")>>, << >>,
-               <<HV("v"), I("b")>> >>
+               <<HV("v"), I("b")>>,
+               \* a variadic axis with the NAME of a single axis: two different axes (two namespaces)
+               <<V("a")>>, <<V("a"), I("a")>>, <<I("b"), V("b")>> >>
 \* symbolic annotations (only used where the names they use are bound earlier)
 SymAlphabet == << <<SymT(<<"+", <<"n", "a">>, <<"i", 1>>>>)>>, <<SymT(<<"*", <<"n", "a">>, <<"n", "b">>>>)>>,
                   <<I("a"), SymT(<<"-", <<"n", "a">>, <<"i", 1>>>>)>>, <<SymT(<<"a", "n">>)>> >>
